@@ -228,7 +228,7 @@ pub fn run(cx: &mut Ctx) {
             check(c, k, &texs, true, true);
         });
     }
-    let n = cx.a.n(1_500, 100_000);
+    let n = cx.a.n(20_000, 200_000);
     for i in 0..n {
         cx.case("random", |c| {
             let mut rng = c.rng.clone();
